@@ -52,3 +52,27 @@ fn c12_fasta_sequence_reader_limit_any_windows() {
     assert!(out.len() == 2 && out[0] == b[0] && out[1] == b[1]);
     std::mem::forget(out);
 }
+
+fn seq_case(k: usize) {
+    let b: [u8; 3] = kani::any();
+    kani::assume(base(b[0]) && base(b[1]) && base(b[2]));
+    let data = [b[0], b[1], b'\r', b'\n', b[2], b'\r', b'\n', b'>'];
+    let mut src = ChunkyBuf::new(&data).split_at(k);
+    let mut out = Vec::with_capacity(8);
+    let n = read_sequence_limit(&mut src, 8, &mut out).unwrap();
+    assert_eq!(n, 3);
+    assert!(out.len() == 3 && out[0] == b[0] && out[1] == b[1] && out[2] == b[2]);
+    assert_eq!(src.pos, 7);
+    std::mem::forget(out);
+}
+
+// @verif prop=C12,C11 id=O12.4f tier=off off_reason="does not fit: >600 s even with CONCRETE split points -- the real memchr SSE2 path over symbolic bytes is what explodes" unwind=20 timeout=600 stubs="std::arch::x86_64::__cpuid_count->no optional CPU features (memchr runs its real SSE2 path)" bound="sequence text b0 b1 CR LF b2 CR LF '>' (symbolic base bytes) delivered in two fill_buf windows split after byte 2, 3 (between CR and LF), 4, 6 (one run each; concrete split positions, R13): bases read == b0 b1 b2, no terminator byte emitted, stops before '>'" fns="fasta::io::reader::sequence::Reader::fill_buf,consume_empty_lines,read_sequence_limit"
+#[kani::proof]
+#[kani::unwind(20)]
+#[kani::stub(std::arch::x86_64::__cpuid_count, fake_cpuid)]
+fn c12_fasta_sequence_reader_crlf_split_anywhere() {
+    seq_case(2);
+    seq_case(3);
+    seq_case(4);
+    seq_case(6);
+}
